@@ -51,12 +51,12 @@ def worker(sh):
         emit(list(shp), repeat=2 if rng.random() < 0.3 else 1)
     sh.count('exhaustive_shapes_total', len(mine))
     # random longer lists, both-identity pairs
-    for _ in range(sh.pick(4, 60)):
+    for _ in range(sh.pick(4, 400)):
         n = rng.randrange(6, 13)
         emit([rng.choice(kinds + [('a', 'PQ0'), ('p', 'PQ0')]) for _ in range(n)], repeat=rng.choice([1, 2]))
     # prepared == plain on single pairs incl. identities (separate entry point)
     single = []
-    for _ in range(sh.pick(6, 80)):
+    for _ in range(sh.pick(6, 400)):
         a = rng.choice(la + [0])
         b = rng.choice(lb + [0])
         single.append((a, b))
